@@ -175,16 +175,7 @@ public:
 
 		std::lock_guard<Mutex> lockGuard(mutex);
 
-		if(head) {
-			node->previous = tail;
-			tail->next = node;
-			EVENTPP_VERIF_POINT("callbacklist.append.mid", this);
-			tail = node;
-		}
-		else {
-			head = node;
-			tail = node;
-		}
+		doAppend(node);
 
 		return Handle(node);
 	}
@@ -221,7 +212,14 @@ public:
 
 			std::lock_guard<Mutex> lockGuard(mutex);
 
-			doInsert(node, beforeNode);
+			// beforeNode can be a removed node that is kept alive by a running invocation
+			// (or by the lock() above); inserting before it would link into stale pointers.
+			if(beforeNode->counter != removedCounter) {
+				doInsert(node, beforeNode);
+			}
+			else {
+				doAppend(node);
+			}
 
 			return Handle(node);
 		}
@@ -240,7 +238,8 @@ public:
 
 		auto node = handle.lock();
 		EVENTPP_VERIF_POINT("callbacklist.remove.mid", this);
-		if(node) {
+		// A removed node can still be alive when a running invocation references it
+		if(node && node->counter != removedCounter) {
 			doFreeNode(node);
 			return true;
 		}
@@ -254,7 +253,7 @@ public:
 
 		auto node = handle.lock();
 		EVENTPP_VERIF_POINT("callbacklist.ownshandle.mid", this);
-		if(node) {
+		if(node && node->counter != removedCounter) {
 			while(node->previous) {
 				node = node->previous;
 			}
@@ -370,6 +369,20 @@ private:
 		-> typename std::enable_if<CanInvoke<Func, Callback &>::value, RT>::type
 	{
 		return func(node->callback);
+	}
+
+	void doAppend(NodePtr & node)
+	{
+		if(head) {
+			node->previous = tail;
+			tail->next = node;
+			EVENTPP_VERIF_POINT("callbacklist.append.mid", this);
+			tail = node;
+		}
+		else {
+			head = node;
+			tail = node;
+		}
 	}
 
 	void doInsert(NodePtr & node, NodePtr & beforeNode)
